@@ -439,30 +439,7 @@ def ob_product(cfg, N, square):
 
 
 def wrap_search(L, mismatch, per_query_ms=2500, budget_s=150):
-    """for every truncation recorded by the affine domain: is there an input whose quotient is non-zero (short query)?  If so evaluate `mismatch(env)` at
-    the model; returns the first environment (variable name -> value) for which it is true, else None"""
-    import time
-    t0 = time.time()
-    base = list(L.solver.assertions())
-    for ky, (r, q) in list(L.wraps.items()):
-        if q.is_const():
-            continue
-        for cond in ([L.z(q) >= 1] if q.lo >= 0 else [L.z(q) >= 1, L.z(q) <= -1]):
-            if time.time() - t0 > budget_s:
-                return None
-            s = z3.SimpleSolver()      # a fresh incremental-core solver: the default tactic pipeline answers these small satisfiable queries poorly
-            s.set("timeout", per_query_ms)
-            s.add(*base)
-            s.add(cond)
-            if s.check() == z3.sat:
-                m = s.model()
-                env = {L.names[i]: m.eval(L.zv[i], model_completion=True).as_long() for i in range(len(L.names))}
-                try:
-                    if mismatch(env):
-                        return env
-                except Exception:
-                    pass
-    return None
+    return L.wrap_search(mismatch, (), per_query_ms, budget_s)
 
 
 def ob_montgomery(cfg, N):
